@@ -248,11 +248,13 @@ pub const OP_NAMES: &[&str] = &[
     "filter", "reduce", "all", "some", "none",
 ];
 
-pub const KEY_POOL: &[&str] = &["a", "b", "c", "", "0", "1", "-1", "a.b", "x\\y", "é", "current", "accumulator", "var", "xs", "secret", "k", "2", "日本", "a b", "+", "length", "xs.length", "__proto__", "constructor", "a.length", "../a", "$root", "$.a", "index", "this"];
+pub const KEY_POOL: &[&str] = &["a", "b", "c", "", "0", "1", "-1", "a.b", "x\\y", "é", "current", "accumulator", "var", "xs", "secret", "k", "2", "日本", "a b", "+", "length", "xs.length", "__proto__", "constructor", "a.length", "../a", "$root", "$.a", "index", "this", "$index", "$key", "xs.*", "*", "a.*", "*.a", "xs.#", "xs.0:1", "xs.1:", "xs.:1", "xs.-1:0"];
 
 pub const SPECIAL_STRINGS: &[&str] = &[
     "", "0", "1", "a", "b", "ab", "abc", "false", "true", "null", " ", "1,2", ",", ",,", "[object Object]", "a.b", "a.0", "0.a", "-1", "x\\y", "x\\.y", "secret", "var", "1.0", "1e0", "10", "9", "2", "é",
     "日本語", "😀", "a,b", "1,", "[object Object],[object Object]",
+    // template / placeholder spellings of other languages: plain text here
+    "{}", "{0}", "{1}{0}", "{} {}", "%s", "%d", "%1$s", "${a}", "{{a}}", "{a}", "$1", "\\1", "#{a}", ":a", "?",
 ];
 
 pub fn strings() -> VS {
